@@ -7,6 +7,10 @@
  * assert    : refusal => OV_EINVAL and EVERY link's flag is 0 afterwards; success => every link's flag == requested;
  *             an initialised decoder is dumped and the position re-established by a sample seek to the SAME position
  *             (when one was known); vi==NULL => OV_EINVAL.
+ *             The stub of ov_pcm_seek models what the real one ends with on success (_make_decode_ready: decoder rebuilt for the
+ *             current link, INITSET) and records the half-rate setting the rebuilt decoder was constructed for (window and MDCT
+ *             lookups are sized blocksize>>hs at vorbis_synthesis_init time): that setting must be the one in force when
+ *             ov_halfrate returns, on the accepting AND on the refusing path (D20).
  */
 #include "vf_env.h"
 #ifndef NL
@@ -17,13 +21,17 @@ int vorbis_synthesis_halfrate(vorbis_info *vi,int flag){ long i=vi-g_base; CHECK
   if(flag && g_refuse[i]){ g_flag[i]=0; return -1; } g_flag[i]=flag?1:0; return 0; }
 int vorbis_synthesis_halfrate_p(vorbis_info *vi){ long i=vi-g_base; return g_flag[i]; }
 #include "vorbisfile.c"
-int ov_pcm_seek(OggVorbis_File *vf,ogg_int64_t pos){ g_seeks++; g_seekpos=pos; CHECK(env_dsp_live==0,"decoder dumped before re-seeking"); if(ND_BOOL()){ vf->pcm_offset=-1; return OV_EREAD; } vf->pcm_offset=pos; return 0; }
+static int g_built=0, g_built_hs=-1;
+int ov_pcm_seek(OggVorbis_File *vf,ogg_int64_t pos){ g_seeks++; g_seekpos=pos; CHECK(env_dsp_live==0,"decoder dumped before re-seeking");
+  if(ND_BOOL()){ vf->pcm_offset=-1; g_built=0; return OV_EREAD; }
+  vf->pcm_offset=pos; vf->ready_state=INITSET; env_dsp_live=1; env_blk_live=1; g_built=1; g_built_hs=g_flag[vf->current_link]; return 0; }
 void harness(void){
   OggVorbis_File vf; memset(&vf,0,sizeof vf); int ds=1; vf.datasource=&ds; vf.callbacks=env_cb; vf.seekable=1;
   vf.links=ND_irange(1,NL); static vorbis_info vis[NL]; vf.vi=ND_BOOL()?&vis[0]:(vorbis_info*)0; g_base=vis;
   for(int i=0;i<NL;i++){ g_flag[i]=ND_irange(0,1); g_refuse[i]=ND_irange(0,1); }
   for(int i=1;i<NL;i++) ASSUME(g_flag[i]==g_flag[0]);          /* V_vf: all links carry the same flag */
   for(int i=0;i<NL;i++) if(g_refuse[i]) ASSUME(g_flag[i]==0);   /* a link with 64-sample short blocks is never at half rate */
+  vf.current_link=ND_irange(0,NL-1); ASSUME(vf.current_link<vf.links);
   vf.ready_state=ND_irange(OPENED,INITSET); if(vf.ready_state==INITSET){ env_dsp_live=1; env_blk_live=1; }
   vf.pcm_offset=ND_range(-1,1L<<40); ogg_int64_t p0=vf.pcm_offset; int rs0=vf.ready_state;
   int flag=ND_irange(0,1);
@@ -40,7 +48,11 @@ void harness(void){
     for(int i=0;i<NL;i++) if(i<vf.links) CHECK(g_flag[i]==flag,"every link carries the requested flag");
     WITNESS_AT("accepted");
   }
-  if(rs0==INITSET){ CHECK(env_dsp_live==0 && vf.ready_state<=STREAMSET,"decode machine dumped");
+  if(g_built){ CHECK(g_built_hs==g_flag[vf.current_link],"the decoder rebuilt by the re-seek was constructed for the half-rate setting in force when ov_halfrate returns");
+    }
+  int untouched=(g_seeks==0 && vf.ready_state==rs0 && vf.pcm_offset==p0 && env_dsp_live==(rs0==INITSET));
+  if(refused && untouched){ WITNESS_AT("refusal left the running decoder alone"); return; }   /* "leaving full-rate decoding intact at the same position" */
+  if(rs0==INITSET){ CHECK(g_seeks>=1 || (env_dsp_live==0 && vf.ready_state<=STREAMSET),"decode machine dumped");
     if(p0>=0){ CHECK(g_seeks>=1 && g_seekpos==p0,"position re-established at the same sample"); WITNESS_AT("re-seek"); } else CHECK(g_seeks==0,"no seek without a known position"); }
   else CHECK(g_seeks==0,"no seek when no decoder was running");
 }
